@@ -33,6 +33,38 @@ def handleCsvReader : List Sexp → Option String
     pure (match csvFile float text with
       | .ok (h, rows) => toString (list [atom "ok", list (h.map csvCellOf), list (rows.map fun r => list (r.map csvCellOf))])
       | .error _ => "(err)")
+  | [atom "fh-csvcols", list titles, list quoted] => do
+    -- the header loop: titles and, as a table, what `_quote` makes of each (`q` is a parameter of the model)
+    let titles ← titles.mapM fun t => (asBytes? t).map csvChars
+    let quoted ← quoted.mapM fun t => (asBytes? t).map csvChars
+    let q : List Char → List Char := fun t => ((titles.zip quoted).lookup t).getD t
+    pure (match csvColumns q (titles.map Csv.Cell.str) with
+      | .ok cols => toString (list (atom "ok" :: cols.map csvHex))
+      | .error _ => "(err)")
+  | [atom "fh-csvhandler", text, list table, list qtable] => do
+    -- the whole handler on the text of a file: reader, header loop, records; column j read on its own
+    let text ← (asBytes? text).map csvChars
+    let table ← table.mapM fun e => match e with
+      | list [t, atom "none"] => do pure ((← (asBytes? t).map csvChars), (none : Option Nat))
+      | list [t, b] => do pure ((← (asBytes? t).map csvChars), some (← asNat? b))
+      | _ => none
+    let qtable ← qtable.mapM fun e => match e with
+      | list [t, u] => do pure ((← (asBytes? t).map csvChars), (← (asBytes? u).map csvChars))
+      | _ => none
+    let missing := match readAll text with
+      | .ok recs => recs.any fun r => r.any fun f => match f with
+          | .num tok => (table.lookup tok).isNone
+          | .str _ => false
+      | .error _ => false
+    if missing then pure "(err notable)" else
+    let float : List Char → Option Nat := fun tok => (table.lookup tok).join
+    let q : List Char → List Char := fun t => (qtable.lookup t).getD t
+    pure (match csvHandler q float text with
+      | .ok s =>
+        let cols := (List.range s.columns.length).map fun j =>
+          list ((s.column j).map fun c => match c with | some c => csvCellOf c | none => atom "short")
+        toString (list [atom "ok", list (s.columns.map csvHex), list (s.records.map fun r => list (r.map csvCellOf)), list cols])
+      | .error _ => "(err)")
   | _ => none
 
 end Pydap.Driver
